@@ -121,6 +121,16 @@ class NumpyShim:
             return ite(lift(a) >= lift(b), a, b)
         return _np.maximum(a, b)
 
+    def ceil(self, x):
+        if isinstance(x, Sym):
+            self.used.add("ceil")
+            c = _ctx()
+            k = c.fresh("ceil", "int")
+            kr = Sym(z3.ToReal(k.t))
+            c.axiom(z3.And((kr - 1 < x).t, (x <= kr).t), "k-1 < x <= k = ceil(x)")
+            return k
+        return _np.ceil(x)
+
     def nditer(self, ops, *a, **kw):
         if any(o is not None and _has_sym(_np.asarray(o, dtype=object) if isinstance(o, Sym) else o) for o in ops):
             self.used.add("nditer")
